@@ -378,6 +378,15 @@ def load_known():
     return json.load(open(p)).get("findings", [])
 
 
+def hc_pre_build(ctx):
+    """regenerate lean/PyomaVerif/Generated/HcProgs.lean (hard-criteria statements of the run() bodies) from the tested tree"""
+    import translate_hc
+
+    ok, msg, summary = translate_hc.write(REPO, LEAN)
+    ctx.notes.append(f"hc translator: {msg}")
+    return ok, msg
+
+
 def wiring_pre_build(ctx):
     """regenerate lean/PyomaVerif/Generated/Wiring.lean (call-site wiring of the algorithm classes) from the tested tree"""
     import translate_wiring
